@@ -71,6 +71,8 @@ def ops(draw):
             out.append({"op": "new", "cfg": draw(st.integers(0, len(CONFIGS) - 1)), "mutate": draw(st.booleans())})
         elif extra == 3:
             out.append({"op": "encode", "enc": draw(st.integers(0, 1)), "fast": draw(st.booleans())})
+        elif extra == 5:
+            out.append({"op": "warp", "seconds": draw(st.sampled_from([0.5, 1.0, 5.0, 3600.0]))})
         elif extra == 4:
             # a truncated frame on the probe stream
             out.append({"op": "feed", "dec": draw(st.integers(0, n_dec - 1)),
@@ -151,6 +153,9 @@ class World:
                             v.append(127250)
                             v.append("vesselHeading")
                 self.extra.append(d)
+            elif k == "warp":
+                from ..common import CLOCK
+                CLOCK.warp(op["seconds"])        # real time passes (process clock advanced)
             elif k == "encode":
                 m = gen.benign_message(canboat.db().by_key["129029/gnssPositionData" if op["fast"] else "127250/vesselHeading"])
                 try:
@@ -219,6 +224,10 @@ def run_case(n_dec, cfg_idx, oplist):
     if W2.outputs != W.outputs:
         i = next(i for i, (a, b) in enumerate(zip(W.outputs, W2.outputs)) if a != b)
         out.append(("C16|replay-differs", f"the same history gives different output at operation result {i} when replayed on fresh instances", case))
+    # time passes between the history and the probe when the history says so
+    if any(o["op"] == "warp" for o in oplist[-3:]) or len(oplist) % 2:
+        from ..common import CLOCK
+        CLOCK.warp(2.0)
     # 2. probe vs fresh decoder that saw only the claims
     for di, dec in enumerate(W.decs):
         fresh = NMEA2000Decoder(**copy.deepcopy(CONFIGS[cfg_idx[di]]))
@@ -283,7 +292,71 @@ def _work(ctx: Ctx, item):
     ctx.hyp(one, ops(), max_examples=n, name="isolation", rounds=3, shrink=not ctx.quick)
 
 
+def _aged(ctx: Ctx, item):
+    """A decoder that has seen the whole database (a benign message of every definition, pre-combined and frame by frame, plus junk)
+    must decode any further message exactly like a fresh decoder."""
+    from hypothesis import strategies as st
+    from nmea2000.decoder import NMEA2000Decoder
+    part, parts, n = item
+    db = canboat.db()
+    aged = NMEA2000Decoder()
+    for d in db.defs:
+        if not d.supported:
+            continue
+        bp, bn, _ = gen.benign_payload(d)
+        for via in ("combined", "frames"):
+            try:
+                if via == "combined":
+                    aged.decode_basic_string(gen.basic_string(d.pgn, bp, bn, src=3), already_combined=True)
+                elif d.fast and bn <= 223:
+                    for fr in wire.segment(bp.to_bytes(bn, "little"), d.index % 8):
+                        traffic.feed(aged, {"kind": "fastframe", "pgn": d.pgn, "src": 3, "dest": 255, "data": fr})
+                elif not d.fast and bn <= 8:
+                    traffic.feed(aged, {"kind": "single", "pgn": d.pgn, "src": 3, "dest": 255, "data": bp.to_bytes(bn, "little")})
+            except Exception:
+                pass
+    for pgn in (65000, 131000, 65285, 130817):
+        try:
+            traffic.feed(aged, {"kind": "raw", "pgn": pgn, "src": 3, "dest": 255, "data": bytes([0xE5, 0x98, 1, 2, 3, 4, 5, 6])})
+        except Exception:
+            pass
+    # address claims are left out of the probes: they legitimately change what the aged decoder returns afterwards (C11)
+    keys = [d.key for d in db.defs if d.supported and d.pgn != 60928][part::parts]
+    seqs = {}
+    for key in keys:
+        d = db.by_key[key]
+
+        def one(p, via, d=d):
+            payload, nbytes, classes = p
+            ctx.count()
+            ctx.nt((d.key, payload, via))
+            res = []
+            outs = []
+            for dec in (aged, NMEA2000Decoder()):
+                try:
+                    if via == "combined" or (d.fast and nbytes > 223) or (not d.fast and nbytes > 8):
+                        r = dec.decode_basic_string(gen.basic_string(d.pgn, payload, nbytes, src=PROBE_SRC), already_combined=True)
+                    elif d.fast:
+                        k = (id(dec) if dec is aged else 0, d.pgn)
+                        seqs[k] = (seqs.get(k, 5) + 1) % 8
+                        r = None
+                        for fr in wire.segment(payload.to_bytes(nbytes, "little"), seqs[k]):
+                            r = traffic.feed(dec, {"kind": "fastframe", "pgn": d.pgn, "src": PROBE_SRC, "dest": 255, "data": fr})
+                    else:
+                        r = traffic.feed(dec, {"kind": "single", "pgn": d.pgn, "src": PROBE_SRC, "dest": 255, "data": payload.to_bytes(nbytes, "little")})
+                    outs.append(traffic.canon(r))
+                except Exception as e:
+                    outs.append(("error", type(e).__name__, str(e)[:80]))
+            if outs[0] != outs[1]:
+                res.append((f"C16|aged-decoder|{via}", f"{d.key}: a decoder that has seen the whole database returns {str(outs[0])[:1200]}, a fresh one {str(outs[1])[:1200]}",
+                            {"aged": True, "definition": d.key, "payload_hex": payload.to_bytes(nbytes, "little").hex(), "via": via}))
+            return res
+        ctx.hyp(one, gen.payloads(d, mode="accepted", extra_bytes=False), st.sampled_from(["combined", "frames"]), max_examples=n, name="aged", shrink=False, rounds=2)
+    ctx.klass("aged_decoder_probes")
+
+
 def run(ctx: Ctx):
+    pmap(ctx, _aged, [(i, 16, 2 if ctx.quick else 40) for i in range(16)])
     n = 40 if ctx.quick else 4000
     pmap(ctx, _work, [(n,)] * 16)
     if not ctx.quick:
@@ -292,5 +365,19 @@ def run(ctx: Ctx):
 
 
 def replay(ctx: Ctx, case):
+    if case.get("aged"):
+        sub = Ctx(ctx.pid)
+        sub.known_open = {}
+        holder = []
+        d = canboat.db().by_key[case["definition"]]
+        data = bytes.fromhex(case["payload_hex"])
+
+        def fake(check, *a, **k):
+            if check.__defaults__ and check.__defaults__[0] is d:
+                holder.extend(check((int.from_bytes(data, "little"), len(data), []), case["via"]))
+        sub.hyp = fake
+        idx = [x.key for x in canboat.db().defs if x.supported and x.pgn != 60928].index(d.key)
+        _aged(sub, (idx % 16, 16, 1))
+        return holder
     res, _ = run_case(case["n_dec"], case["cfg"], [unjsonop(o) for o in case["ops"]])
     return res
